@@ -179,7 +179,7 @@ func c05r1(c *RC) {
 			})
 		}
 	}
-	c.Floor("registered hash/compare kernels", nlit, 34)
+	c.Floor("registered hash/compare kernels", nlit, 20)
 	for _, q := range []string{"frame.hash32", "frame.hash64"} {
 		if fn := c.MustFn(q); fn != nil {
 			bad := impureUses(fn.Pkg, fn.Decl, fn.Body, nil, nil)
